@@ -52,8 +52,14 @@ RuleTargetOK(e, i) ==
 AllRulesSatisfied(e) == \A j \in 1..Len(e.fit.fits) : e.fit.fits[j].satisfied
 OrphanStores(e) == {s \in PeerStores(e) : PeerAt(e, s).id \in ToSet(e.fit.orphans)}
 
+(* a rule that covers part of the key space: a region spanning one of its boundaries matches no rule set as a whole *)
+BoundsInside(e) == {b \in ToSet(e.rule_bounds) : e.region_keys[1] < b /\ b < e.region_keys[2]}
 Verdict10(e) ==
   LET netLoss == HealthyAfter(e) < HealthyBefore(e) IN
+  (IF e.rules_mode /\ BoundsInside(e) # {} /\ ~(e.has_op /\ Len(e.steps) = 1 /\ e.steps[1].k = "Split" /\ ToSet(e.split_at) = BoundsInside(e))
+     THEN {"RegionSpanningRuleBoundaryIsSplitThere"} ELSE {})
+  \cup (IF (\E i \in 1..Len(e.steps) : e.steps[i].k = "Split") /\ ~(e.rules_mode /\ BoundsInside(e) # {}) THEN {"SplitOnlyAtRuleBoundaries"} ELSE {})
+  \cup
   (IF \E i \in Adds(e) : ~GoodTarget(e, e.steps[i].store) THEN {"AddsOnlyOnGoodStores"} ELSE {})
   \cup (IF Adds(e) # {} /\ Removes(e) # {} /\ ~(\A i \in Adds(e), j \in Removes(e) : i < j)
         THEN (IF \A j \in Removes(e) : PeerAt(e, e.steps[j].store).learner /\ \A i \in Adds(e) : \E k \in 1..Len(e.steps) : e.steps[k].k = "PromoteLearner" /\ e.steps[k].store = e.steps[i].store
